@@ -305,7 +305,9 @@ func checkCacheStructure(r *Run, p *packages.Package, lm *LockModel) {
 							}
 							if obligated {
 								construct := fname + ":stale-hand"
-								if handFixedBefore(info, m.Decl, s.Pos(), hand) {
+								if src := handMaySelectWholeQueue(info, lm, m.Decl, s.Pos(), hand, queue); src != "" {
+									r.Fail("C16-R5-stale-hand", construct, s.Pos(), "the eviction hand is set from %s just before the removal: that can be the very element being removed (a single-entry cache), so the hand dangles and the next eviction dereferences nil while holding the lock", src)
+								} else if handFixedBefore(info, m.Decl, s.Pos(), hand) {
 									r.Pass("C16-R5-stale-hand", construct, s.Pos(), "the eviction hand is moved (or compared and moved) before the element is removed")
 								} else {
 									r.Fail("C16-R5-stale-hand", construct, s.Pos(), "a queue element is removed without first moving %s.%s off it: the hand keeps pointing at a removed element (its Prev() is nil and its key is no longer in the store)", tname, hand.Name())
@@ -385,6 +387,57 @@ func handFixedBefore(info *types.Info, fd *ast.FuncDecl, pos token.Pos, hand *ty
 		return true
 	})
 	return fixed
+}
+
+// handMaySelectWholeQueue: the last assignment to the hand field before pos takes its value from an expression that can
+// yield queue.Back()/queue.Front() — directly or through a helper method of the cache — rather than only a neighbour
+// (Prev()/Next()) of the element that is about to be removed. Returns a description of the source, or "".
+func handMaySelectWholeQueue(info *types.Info, lm *LockModel, fd *ast.FuncDecl, pos token.Pos, hand, queue *types.Var) string {
+	var last ast.Expr
+	ast.Inspect(fd.Body, func(x ast.Node) bool {
+		if as, ok := x.(*ast.AssignStmt); ok && as.Pos() < pos && len(as.Lhs) == len(as.Rhs) {
+			for i, l := range as.Lhs {
+				if selectsField(info, l, hand) {
+					last = as.Rhs[i]
+				}
+			}
+		}
+		return true
+	})
+	if last == nil {
+		return ""
+	}
+	var sources func(e ast.Node, depth int) string
+	sources = func(e ast.Node, depth int) string {
+		found := ""
+		ast.Inspect(e, func(x ast.Node) bool {
+			call, ok := x.(*ast.CallExpr)
+			if !ok || found != "" {
+				return found == ""
+			}
+			if sel, ok := call.Fun.(*ast.SelectorExpr); ok && (sel.Sel.Name == "Back" || sel.Sel.Name == "Front") && selectsField(info, sel.X, queue) {
+				found = "queue." + sel.Sel.Name + "()"
+				return false
+			}
+			if callee := calleeOf(info, call); callee != nil && depth < 2 {
+				if cm := lm.Methods[callee.Origin()]; cm != nil {
+					ast.Inspect(cm.Decl.Body, func(y ast.Node) bool {
+						if rs, ok := y.(*ast.ReturnStmt); ok && found == "" {
+							for _, res := range rs.Results {
+								if sub := sources(res, depth+1); sub != "" {
+									found = sub + " (through " + callee.Name() + ")"
+								}
+							}
+						}
+						return true
+					})
+				}
+			}
+			return true
+		})
+		return found
+	}
+	return sources(last, 0)
 }
 
 func checkCapacityClamp(r *Run, p *packages.Package) {
